@@ -13,7 +13,7 @@ FUNCTIONS = [CPU + "Opcode.emit_value", CPU + "Opcode.get_opcode_byte", CPU + "O
              N + "OpcodeNode.__init__", N + "OpcodeNode._get_emitter", N + "OpcodeNode.emit", N + "OpcodeNode.pc_after",
              "a816.parse.parser_states.parse_opcode", "a816.parse.parser_states.parse_operand_and_addressing", "a816.parse.parser_states._parse_expression",
              "a816.parse.parser_states.parse_expression", "a816.parse.codegen.generate_opcode"]
-MIN_OBLIGATIONS = 3000
+MIN_OBLIGATIONS = 5000
 EXPLANATION = ("From tokens on: per mnemonic of the live opcode table, the real OpcodeNode._get_emitter/emit/pc_after are executed symbolically "
                "for the full cross product addressing mode x index x width (present and absent cells) with a symbolic operand value; each "
                "cell must yield exactly the ISA opcode (independent matrix vf/specs/isa65816.py) followed by the little-endian operand, or be "
@@ -21,15 +21,18 @@ EXPLANATION = ("From tokens on: per mnemonic of the live opcode table, the real 
                "definitions are proved for all values.  Operand SYNTAX -> addressing mode is proved on the real parse_opcode / parse_operand_and_addressing / "
                "generate_opcode for every operand shape of the statement (29 token patterns incl. the malformed index combinations and parenthesised "
                "sub-expressions), with and without a size suffix, letter case symbolic: the (mode, index) chosen denotes -- through the same form_of the table "
-               "obligations use -- exactly the ISA form the syntax denotes at each width, or nothing (then the table obligations reject it).  "
+               "obligations use -- exactly the ISA form the syntax denotes at each width, or nothing (then the table obligations reject it).  END TO END: for every mnemonic x "
+               "single-term operand shape x suffix presence (a deterministic quarter in the quick tier, all ~4 000 in the thorough tier) the token list is run through the real "
+               "parse_opcode -> generate_opcode -> real eval_expression -> OpcodeNode.emit with the operand bound to ANY value: the bytes are the ISA opcode of the form the SYNTAX "
+               "denotes at the explicit / inferred width + the little-endian operand, or the statement is rejected, never so for a supported one.  "
                "Characters -> tokens (scanner) for instruction statements is the bounded part.")
 TRUSTED = ["vf/specs/isa65816.py (65c816 matrix, flat table cross-checked against the aaabbbcc group rule at start-up)", "vf/specs/le.py",
            "vf/specs/supported_set.py (frozen at the pinned commit)"]
 ASSUMPTIONS = ["eval_expression modelled as a function of (expression, environment) (vf/specs/stubs.py); verified separately in C06",
                "hex()/len(hex(v)) model: 2 + number of hex digits, threshold axioms d <= k <=> v < 16**k", "struct.pack model",
                "operand values 0 <= v < 2**24 for the table obligations (the statement's widths are 1-3 bytes); wider .l operands may be refused",
-               "syntax obligations: operand terms are identifier tokens (the value of an expression is C06's subject); composition syntax -> node -> bytes is by equality of the "
-               "OpcodeNode fields (mnemonic, mode, index, size) between statement_tokens_contract's conclusion and table_mnemonic_contract's hypothesis (argued, not machine-checked)",
+               "syntax obligations: operand terms are identifier tokens (the value of an expression is C06's subject); the composition syntax -> node -> bytes is machine-checked "
+               "end to end by statement_bytes_contract for single-term operands (quick tier: a deterministic quarter of mnemonic x shape x suffix; thorough: all)",
                "bounded: characters -> tokens -> (mode, index, size) for each operand shape x suffix x case x spacing through the real scanner/parser"]
 
 
@@ -112,8 +115,49 @@ def shape_statement(shape, with_size):
     return sh
 
 
-def cases(E):
+SINGLE_TERM_SHAPES = ["implied", "#e", "e", "e,x", "e,y", "e,s", "(e)", "(e),y", "(e),x", "(e),s", "[e]", "[e],y", "[e],x", "(e,x)", "(e,s),y", "(e,y)", "(e,s)",
+                      "(e,x),y", "(e,y),y", "(e,x),x", "(e,s),x", "#e,x", "#e,y"]
+
+
+def shape_statement_bytes(mnemonic, shape, with_size):
+    base = shape_statement(shape, with_size)
+
+    def sh(B):
+        d = base(B)
+        v = B.int("v")
+        shapes.root_symbols(B, d["resolver"], {"e": v})
+        toks = B.I.hget(B.st, B.I.hget(B.st, d["p"]).fields["tokens"]).items
+        B.I.hmut(B.st, toks[0]).fields["value"] = mnemonic
+        return {"p": d["p"], "resolver": d["resolver"], "addr": shapes.lorom_address(B), "shape": shape, "size_text": d["size_text"], "mnemonic": mnemonic, "v": v}
+    return sh
+
+
+def end_to_end_cases(E, tier):
+    import zlib
+    table = E.lifter.module("a816.cpu.cpu_65c816").snes_opcode_table
+    from vf.specs import isa65816
     cs = []
+    for m in sorted(table):
+        if m in isa65816.BRANCHES:
+            continue
+        naked = set(table[m]) == {E.lifter.module("a816.cpu.cpu_65c816").AddressingMode.none}
+        for shp in SINGLE_TERM_SHAPES:
+            if (shp == "implied") != naked and not (shp == "implied" and E.lifter.module("a816.cpu.cpu_65c816").AddressingMode.none in table[m]):
+                if shp == "implied" or naked:
+                    continue
+            for ws in (False, True):
+                # quick tier: a deterministic quarter of the cross product (all of it in the thorough tier)
+                if tier != "thorough" and zlib.crc32(f"{m}/{shp}/{ws}".encode()) % 4 != 0:
+                    continue
+                cs.append(Case(H + "statement_bytes_contract", f"{m} {shp}{' with size suffix' if ws else ''}", shape_statement_bytes(m, shp, ws),
+                               target=["a816.parse.parser_states.parse_opcode", "a816.parse.codegen.generate_opcode", N + "OpcodeNode.emit"], group="end-to-end",
+                               drop_overrides=["a816.parse.ast.expression.eval_expression"]))
+    return cs
+
+
+def cases(E):
+    import os
+    cs = end_to_end_cases(E, os.environ.get("VERIF_TIER", "quick"))
     from vf.specs import syntax
     for shp in syntax.SHAPES:
         for ws in (False, True):
@@ -143,7 +187,8 @@ def cases(E):
     return cs
 
 
-OPTIONAL_CHECKS = {"statement_tokens_contract": ["only_malformed_shapes_are_refused_by_the_parser", "whole_statement_consumed", "one_node", "mnemonic_lower_cased", "no_suffix_no_size",
+OPTIONAL_CHECKS = {"statement_bytes_contract": ["supported_statement_accepted", "only_isa_instructions", "opcode_of_the_denoted_form", "implied_is_one_byte", "operand_le_at_the_width"],
+                   "statement_tokens_contract": ["only_malformed_shapes_are_refused_by_the_parser", "whole_statement_consumed", "one_node", "mnemonic_lower_cased", "no_suffix_no_size",
                                                  "suffix_is_the_size", "mode_denotes_the_syntax_form", "no_operand", "operand_is_the_operand_tokens", "operand_resolver"],
                    "table_mnemonic_contract": ["supported_cell_accepted", "only_isa_instructions", "opcode_byte", "implied_is_one_byte", "operand_le", "label_pass_size_is_emitted_size"],
                    "table_mnemonic_nosuffix_contract": ["supported_cell_accepted_nosuffix", "only_isa_instructions_nosuffix", "opcode_byte_nosuffix", "operand_le_nosuffix", "label_pass_size_is_emitted_size_nosuffix"],
@@ -160,6 +205,7 @@ def bounded(tier, seed):
 def mutants():
     from vf.pyvc.mutate import textual
     return [
+        Mutant("parse_opcode:index-does-not-change-the-mode (end to end)", "a816.parse.parser_states.parse_opcode", textual("addressing_mode = index_map[addressing_mode]", "pass"), only_harness="statement_bytes", max_cases=200),
         Mutant("parse_operand:inner-index-mode-for-any-register", "a816.parse.parser_states.parse_opcode", textual("if addressing_mode == AddressingMode.dp_or_sr_indirect_indexed and inner_index != 's':", "if False:"), only_harness="statement_tokens"),
         Mutant("parse_operand:brackets-parsed-as-parentheses", "a816.parse.parser_states.parse_operand_and_addressing", textual("addressing_mode = AddressingMode.indirect_long", "addressing_mode = AddressingMode.indirect"), only_harness="statement_tokens"),
         Mutant("generate_opcode:index-dropped", "a816.parse.codegen.generate_opcode", textual("index=node.index, ", ""), only_harness="statement_tokens"),
